@@ -117,6 +117,8 @@ def _visibility_table(ctx, repo) -> None:
 
 def check(ctx) -> None:
     repo = ctx.repo
+    ctx.rule("C27.members", "ABSINT: the statements collecting a class's methods, interpreted with the real inspect / enum modules, find every function a plain class and an enum class define", floor=2)
+    _member_discovery(ctx, repo)
     ctx.rule("C27.lambda", "ABSINT: _get_lambda_assigned_name finds the assigned name from the first line of the lambda's code object for single-line, parenthesised and continued module-level lambdas", floor=4)
     _lambda_names(ctx, repo)
     ctx.rule("C27.guard", "GUARD-DOM: every add_accessible_object_under_test call in the analysis functions is under `add_to_test`", floor=3)
@@ -300,3 +302,58 @@ def _lambda_names(ctx, repo) -> None:
         ctx.check("C27.lambda", fn, got is None, f"[lambda name] a line without lambda yields {got!r}", what="[lambda name] no lambda on the line -> None", stmt="[lambda name] none")
     except (peval.Undecided, peval.Raises) as exc:
         ctx.undecide("C27.lambda", fn, f"no-lambda line: {exc}")
+
+
+class _ReprEnum(__import__("enum").Enum):
+    RED = 1
+
+    def describe(self):
+        return self.name
+
+    @staticmethod
+    def parse(text):
+        return _ReprEnum[text]
+
+
+class _ReprPlain:
+    def m(self):
+        return 1
+
+    @staticmethod
+    def s():
+        return 2
+
+
+def _member_discovery(ctx, repo) -> None:
+    """The statements that collect the methods of a class, interpreted with the real inspect / enum modules over a plain
+    class and an enum class that defines methods (dir() of an enum class hides them): every function the class defines is
+    found."""
+    import enum as _enum
+    import inspect as _inspect
+
+    from sa.engine import peval
+
+    mod = repo.module(M)
+    target = None
+    for _m, qn, fn in repo.all_functions(M):
+        for st in own_nodes(fn):
+            if isinstance(st, ast.Try) and any(isinstance(x, ast.Assign) and norm(x.targets[0]) == "methods_with_names" for x in st.body):
+                target = (fn, st)
+    if target is None:
+        raise AnalysisError("C27.members: the statement collecting `methods_with_names` vanished")
+    fn, tr = target
+    ctx.analysed(fn)
+    for cls, want in ((_ReprPlain, {"m", "s"}), (_ReprEnum, {"describe", "parse"})):
+        tag = f"[members] {'an enum class' if issubclass(cls, _enum.Enum) else 'a plain class'} defining {sorted(want)}"
+        ti = peval.Obj("type_info", fields={"raw_type": cls, "full_name": cls.__qualname__})
+        env = {"type_info": ti}
+        it = peval.Interp(resolver=peval.repo_resolver(repo), native_types=(type, type(_inspect)), max_steps=200000,
+                          consts={"inspect": _inspect, "enum": _enum, "enum.EnumMeta": _enum.EnumMeta, "enum.EnumType": _enum.EnumMeta, "inspect.isfunction": _inspect.isfunction},
+                          externs={"inspect.getmembers": lambda *a, **k: list(_inspect.getmembers(*a, **k)), "inspect.getmembers_static": lambda *a, **k: list(_inspect.getmembers_static(*a, **k)), "inspect.isfunction": _inspect.isfunction, "vars": vars, "isinstance": isinstance})
+        try:
+            it.block(tr.body, env, mod)
+        except (peval.Undecided, peval.Raises) as exc:
+            ctx.undecide("C27.members", tr, f"{tag}: {exc}")
+            continue
+        got = {n for n, _v in env.get("methods_with_names", [])}
+        ctx.check("C27.members", tr, want <= got, f"{tag}: the collected members are {sorted(n for n in got if not n.startswith('__'))}: {sorted(want - got)} are eligible callables defined in the module that never reach the test cluster", what=f"{tag}: all found", stmt=tag)
